@@ -243,3 +243,37 @@ func Verif_C10_traceroute_loop() {
 		}
 	}
 }
+
+// Verif_C10_two_packets: two packets with different budgets pass through the same transit node one
+// after the other: each is relayed with ITS OWN budget minus one (or expires on its own budget) -
+// nothing about the first packet's budget sticks to the second.
+func Verif_C10_two_packets() {
+	n := verifNetceptor("A")
+	s := n.s
+	cb := n.verifConn("B", 1)
+	for _, d := range []string{"S", "T", "U"} {
+		s.AddNameHash(d)
+		s.routingTable[d] = "B"
+	}
+	h1, h2 := verifapi.Byte(), verifapi.Byte()
+	to2 := []string{"T", "U"}[verifapi.Choose(2)]
+	_ = s.handleMessageData(&MessageData{FromNode: "S", ToNode: "T", FromService: "x", ToService: "y", HopsToLive: h1, Data: []byte{1}})
+	verifapi.Quiesce()
+	first := verifTake(cb)
+	_ = s.handleMessageData(&MessageData{FromNode: "S", ToNode: to2, FromService: "x", ToService: "y", HopsToLive: h2, Data: []byte{2}})
+	verifapi.Quiesce()
+	second := verifTake(cb)
+	verifapi.Cover("two-packets")
+	check := func(out [][]byte, h byte, to string, payload byte) {
+		verifapi.Assert("exactly-one-output-per-packet", len(out) == 1)
+		m, err := s.translateDataToMessage(out[0])
+		verifapi.Assert("output-decodes", err == nil)
+		if h == 0 {
+			verifapi.Assert("expired-packet-yields-notice-only", verifapi.All(m.FromService == "unreach", m.ToNode == "S"))
+		} else {
+			verifapi.Assert("relayed-with-own-budget-minus-one", verifapi.All(m.FromService == "x", m.ToNode == to, m.HopsToLive == h-1, len(m.Data) == 1, m.Data[0] == payload))
+		}
+	}
+	check(first, h1, "T", 1)
+	check(second, h2, to2, 2)
+}
